@@ -55,16 +55,23 @@ def run_case(case):
     if not any(nd["sconst"] for nd in prog["nodes"]):
         prog["nodes"][0]["sconst"] = ["alpha", "beta", "gamma", "delta"]
     # ... and a project helper that shadows a builtin name (late definitions of such names are a special case)
-    plain = [nd for nd in prog["nodes"] if nd["kind"] == "plain"]
-    if plain and not any(nd["name"] in progs.BUILTIN_NAMES for nd in prog["nodes"]) and case["idx"] % 2 == 0:
-        old, new = plain[0]["name"], rng.choice(progs.BUILTIN_NAMES)
-        plain[0]["name"] = new
-        for al in prog["aliases"]:
-            al["name"] = al["name"].replace("_" + old, "_" + new) if al["name"].endswith("_" + old) else al["name"]
-        for nd in prog["nodes"]:
-            for c in nd["calls"]:
-                if c.get("alias", "").endswith("_" + old):
-                    c["alias"] = c["alias"][: -len(old)] + new
+    nodes = prog["nodes"]
+    plain = [i for i, nd in enumerate(nodes) if nd["kind"] == "plain" and nd["mod"] != "e" and i > 0]
+    named = [i for i in plain if nodes[i]["name"] in progs.BUILTIN_NAMES]
+    if plain and not named:
+        i = rng.choice(plain)
+        old, new = nodes[i]["name"], rng.choice([b for b in progs.BUILTIN_NAMES if not any(nd["name"] == b for nd in nodes)])
+        nodes[i]["name"] = new
+        for nd in nodes:
+            if nd["nested"] and nd["nested"].get("param") == old:
+                nd["nested"]["param"] = new
+        named = [i]
+    for i in named:
+        # ... called by bare name from a memento function of the same module defined above it (in the
+        # mementos-first order the helper is still undefined when that function registers)
+        users = [u for u in range(i) if nodes[u]["kind"] == "memento" and nodes[u]["mod"] == nodes[i]["mod"]]
+        if users and not any(c["t"] == i and c["form"] == "bare" for u in users for c in nodes[u]["calls"]):
+            nodes[rng.choice(users)]["calls"].append({"t": i, "form": "bare"})
     out["sets"]["features"] |= progs.features(prog)
     fns = [[nd["mod"], nd["name"]] for nd in prog["nodes"] if nd["kind"] == "memento"]
 
